@@ -35,5 +35,6 @@ func init() {
 		Mirror(c, "R-MIRROR", []*packages.Package{c.Pkg("monoid"), c.Pkg("semigroup")}, map[string]bool{"Combine": true}, true,
 			func(bc binClosure) bool { return bc.fb.Decl != nil && bc.fb.Decl.Name.Name == "Dual" }, 25)
 		Rel(c, "R-REL", []*packages.Package{c.Pkg("monoid"), c.Pkg("semigroup")}, anyDecl, instanceParam, 200)
+		NoSwap(c, "R-NOSWAP", []*packages.Package{c.Pkg("monoid"), c.Pkg("semigroup")})
 	})
 }
